@@ -12,6 +12,7 @@
 From Coq Require Import ZArith NArith List Bool.
 From Mpc Require Import Gen.Consts IO.IOArg IO.IOArgProof IO.RunC13.
 Import ListNotations.
+From Mpc Require Gen.State Base.StateExpected Base.StateCheck Base.StatePkgs.
 Open Scope Z_scope.
 
 (* The executed model follows the repaired code: setInt writes exactly
@@ -358,3 +359,16 @@ Theorem C13_result_inverse_int_array :
       = Ok (OSlice ek ew (map (go_int true b) zs), r).
 Proof. exact result_fixed_int_array_inverse. Qed.
 Print Assumptions C13_result_inverse_int_array.
+
+(* STATE INVENTORY (finite obligation on the model regenerated from the source, checked by
+   computation).  The struct fields and package-level variables of the Go packages this
+   property is anchored in — ., circuit, types — as emitted from /repo's current
+   source by harness/gen_state.go (Gen/State.v) are exactly those the models above were written
+   against (Base/StateExpected.v).  A new field or variable (a cache, a memo, a pool, a counter,
+   a changed field type) is state the models do not have: this obligation then breaks and the
+   property is no longer shown to hold until the change has been reviewed against the model. *)
+Theorem C13_state_inventory :
+  Mpc.Base.StateCheck.state_unchanged Mpc.Gen.State.state_inventory Mpc.Base.StateExpected.expected_state
+    Mpc.Base.StatePkgs.pkgs_C13 = true.
+Proof. vm_compute. reflexivity. Qed.
+Print Assumptions C13_state_inventory.
